@@ -12,13 +12,13 @@ CLAIMED = {
          "All histories up to the depth bound over share creators/destroyers (create pool, joins, exits incl. full withdrawals of a non-last committed denom, unbond, leveraged-LP open/close/liquidate, claims) from roots R0/R1/R5/R6 (R6: accounts holding several committed denoms in different orders, locks expired); TotalShares == supply == sum committed == custody balance after every block.",
          "Bounded alphabet/depth; rollback shortcut validated by linear re-execution.", "3/C02"),
  "C06": ("W", "explicit-state DFS over the real chain, invariant after every block",
-         "All histories up to the depth bound over bond/unbond/borrow/repay/liquidation/interest-gap ops; TotalValue == cash + sum(debt) exactly after every block.",
+         "All histories up to the depth bound over bond/unbond/borrow/repay/liquidation/interest-gap ops, incl. borrowers who also lend (role collisions) and root R3 (un-booked interest); TotalValue == cash + sum(debt) exactly after every block.",
          "Bounded alphabet/depth; rollback shortcut validated by linear re-execution.", "3/C06"),
  "C08": ("W", "explicit-state DFS over the real chain, invariant after every block",
          "All histories up to the depth bound over leveraged-LP opens, consolidations, partial/full closes, bot close-positions, vault drains and price crashes; pool total == sum positions, position shares == committed at position address, counter == stored positions, closed ids leave nothing behind.",
          "Bounded alphabet/depth; rollback shortcut validated by linear re-execution.", "3/C08"),
  "C09": ("W", "explicit-state DFS over the real chain, invariant after every block",
-         "All histories up to the depth bound over perpetual opens (both sides, both collaterals), consolidation, top-up, partial/full close, bot close-positions, price moves and long gaps (interest/funding); pool aggregates == sums over MTPs, counter == stored MTPs, amm reserve >= custody.",
+         "All histories up to the depth bound over perpetual opens (both sides, both collaterals), consolidation, top-up, partial/full close, bot close-positions (alone and in the block that feeds a new price: every forced-close branch), a huge long against a 90 % liquidity exit, price moves and long gaps (interest/funding); pool aggregates == sums over MTPs, counter == stored MTPs, amm reserve >= custody.",
          "Bounded alphabet/depth; rollback shortcut validated by linear re-execution.", "3/C09"),
 }
 NOT_YET = {}
